@@ -607,6 +607,73 @@ fn run_linemarker(case: &Sx) -> Sx {
     }
 }
 
+// ------------------------------------------------------------------ timestamp
+
+/// case = ( x ... ): instants x nanoseconds after 1_000_000 s BEFORE the Unix epoch (so small x are pre-1970).
+/// result = ( (neg secs nanos class) ... ): the fields of `Timestamp::from(SystemTime)` (read off its Debug form) and
+/// the equality class of `include_file_digest` of a header mentioning __TIMESTAMP__ with that mtime.
+fn run_timestamp(case: &Sx) -> Sx {
+    let (_, finder) = Digest::reader_sync_time_macros(&b"// __TIMESTAMP__\n"[..]).unwrap();
+    let base = UNIX_EPOCH - Duration::from_secs(1_000_000);
+    let mut digests: Vec<String> = vec![];
+    let mut out = vec![];
+    for x in case.list() {
+        let t = base + Duration::from_nanos(x.u64());
+        let ts = Timestamp::from(t);
+        let dbg = format!("{:?}", ts);
+        let num = |key: &str| -> i128 {
+            let i = dbg.find(key).map(|i| i + key.len()).unwrap_or(0);
+            dbg[i..].trim_start().trim_start_matches(':').trim_start()
+                .chars().take_while(|c| c.is_ascii_digit() || *c == '-').collect::<String>().parse().unwrap_or(i128::MIN)
+        };
+        let secs = num("seconds");
+        let nanos = num("nanoseconds");
+        let d = sccache::verif_hooks::compiler::preprocessor_cache::include_file_digest("content".to_string(), &finder, Some(ts))
+            .unwrap_or_default();
+        let class = digests.iter().position(|e| *e == d).unwrap_or(digests.len());
+        digests.push(d);
+        out.push(Sx::L(vec![Sx::bool(secs < 0), Sx::N(secs.unsigned_abs()), Sx::N(nanos.unsigned_abs()), Sx::usize(class)]));
+    }
+    Sx::L(out)
+}
+
+// ------------------------------------------------------------------ manyinc
+
+/// case = ( n edit ): n distinct tiny headers recorded as ONE result through the real add_result; result =
+/// ( stored hit_unchanged hit_after_edit ): number of include entries stored for the key, lookup on the untouched tree,
+/// lookup after a same-size edit of header number `edit` (in path order).
+fn run_manyinc(case: &Sx) -> Sx {
+    let n = case.arg(0).u64() as usize;
+    let edit = case.arg(1).u64() as usize;
+    let td = tempfile::Builder::new().prefix("vh-c04m-").tempdir_in("/dev/shm").unwrap();
+    let cfg = cfg_of(9);
+    let mut files: Vec<(String, PathBuf)> = Vec::with_capacity(n);
+    for i in 0..n {
+        let p = td.path().join(format!("h{:06}.h", i));
+        std::fs::write(&p, format!("int h{:06};\n", i)).unwrap();
+        let d = Digest::reader_sync(std::fs::File::open(&p).unwrap()).unwrap();
+        files.push((d, p));
+    }
+    files.sort_unstable_by(|a, b| a.1.cmp(&b.1));
+    let victim = files.get(edit.min(n.saturating_sub(1))).map(|f| f.1.clone());
+    std::thread::sleep(Duration::from_millis(15));
+    let start = SystemTime::now();
+    let mut entry = PreprocessorCacheEntry::new();
+    entry.add_result(start, "key", files);
+    let (_, rs) = entry.verif_view();
+    let stored = rs.iter().find(|(k, _)| k == "key").map(|(_, v)| v.len()).unwrap_or(0);
+    let mut updated = false;
+    let hit0 = entry.lookup_result_digest(cfg, &mut updated).is_some();
+    if let Some(v) = victim {
+        let old = std::fs::read(&v).unwrap();
+        let mut new = old.clone();
+        new[4] = b'X';
+        std::fs::write(&v, new).unwrap();
+    }
+    let hit1 = entry.lookup_result_digest(cfg, &mut updated).is_some();
+    Sx::L(vec![Sx::usize(stored), Sx::bool(hit0), Sx::bool(hit1)])
+}
+
 fn main() {
     vh::quiet_panics();
     let leg = std::env::args().nth(1).unwrap_or_default();
@@ -616,6 +683,8 @@ fn main() {
         "ppcache" => vh::run_lines(run_ppcache),
         "ppkey" => vh::run_lines(run_ppkey),
         "linemarker" => vh::run_lines(run_linemarker),
+        "timestamp" => vh::run_lines(run_timestamp),
+        "manyinc" => vh::run_lines(run_manyinc),
         _ => {
             eprintln!("unknown leg");
             std::process::exit(2)
